@@ -172,6 +172,18 @@ theorem current_le_now (p : Params) (hp : p.Valid) (s : State) (h : Reachable p 
   have hl := hi.lw_le
   rw [ticks_eq]; omega
 
+/-- **A running clock is fresh.** While an updater is running, `current` is the tick count of a real
+    time `w` that is at most `period + eps` old (its last wake-up, or its birth — when `current` was
+    re-read from the wall clock).  This is the staleness the `+clockPeriod` slack of `deadlineTicks`
+    compensates. -/
+theorem fresh_when_running (p : Params) (hp : p.Valid) (s : State) (h : Reachable p s)
+    (hr : s.running = true) :
+    ∃ w, s.current = ticks (w - s.startNs) ∧ w ≤ s.now ∧ s.now - w ≤ p.period + p.eps := by
+  have hi := inv_of_reachable p hp s h
+  have hpr := hi.progress hr
+  refine ⟨s.lastWrite, ?_, hi.lw_le, by omega⟩
+  rw [ticks_eq]; exact (hi.cur_eq hpr.1).1
+
 /-- **No early timeout.** If in a reachable state a pending deadline — made at real time `t0` for
     MatchTimeout `d` — is `reached()`, then the real time elapsed since `t0` is at least
     `min(d+period, MaxInt64) - period - eps - 2097150 ns`; for `d ≤ MaxInt64 - period` that is
